@@ -104,6 +104,7 @@ def run_tlc(module, cfg, wd, workers=4, timeout=1800, env=None, simulate=None, d
     m = STATS.search(out)
     res = dict(out=out, rc=rc, wall=wall, behaviours=behaviours, states=int(m.group(1)) if m else 0, distinct=int(m.group(2)) if m else 0)
     if 'TLC threw an unexpected exception' in out or 'Error: Parsing or semantic analysis failed' in out \
+            or 'Error: The error occurred when TLC was evaluating' in out \
             or 'java.lang.' in out and 'Exception' in out and 'Error:' in out and 'is violated' not in out:
         open(os.path.join(wd, 'tlc_error.out'), 'w').write(out)
         raise ToolError('TLC failed (tool error, not a verdict); output in ' + os.path.join(wd, 'tlc_error.out') + '\n'
